@@ -33,6 +33,10 @@ func featuresFromContext(ctx context.Context) graphql.FeatureSet {
 // mounted on it when nothing refers to the spec's own root objects as a field type and no type
 // collides with the names the configuration defines itself.
 func apiCompatible(spec *Spec) bool {
+	if spec.Subscription != "" {
+		// a subscription started over the socket needs resolvers returning SubscriptionSourceStream
+		return false
+	}
 	for _, t := range spec.Types {
 		if t.Name == "Node" || t.Name == "Subscription" {
 			return false
@@ -64,6 +68,11 @@ func apiCompatible(spec *Spec) bool {
 	}
 	for _, f := range spec.Orphans {
 		if b := baseName(f.Conn.Node); b == spec.Query || b == spec.Mutation {
+			return false
+		}
+	}
+	for _, ci := range spec.ConnIfaces {
+		if b := baseName(ci.Node); b == spec.Query || b == spec.Mutation {
 			return false
 		}
 	}
@@ -286,6 +295,15 @@ func (h *harness) checkAPI(spec *Spec, r interface {
 			if wsA != nil && a.Panic == "" && b.Panic == "" {
 				a := wsA.run(fw, &q)
 				b := wsB.run(ew, &q)
+				if strings.HasPrefix(a.Resp, "ws ") || strings.HasPrefix(b.Resp, "ws ") {
+					// socket I/O failed (deadline under load): not a verdict about the library
+					h.run.Count("api:ws-io-error")
+					h.run.Note("websocket I/O error, socket comparison abandoned for this schema: %s / %s", a.Resp, b.Resp)
+					wsA.close()
+					wsB.close()
+					wsA, wsB = nil, nil
+					continue
+				}
 				what := compareOutcomes(origX, F, a, b)
 				if what != "" {
 					a2 := wsA.run(fw, &q)
